@@ -372,6 +372,7 @@ class Interp:
         self.index_uses = []                     # (func, node, base AV, index Lin, facts snapshot) for C01
         self.unpack_uses = []
         self.visited = set()         # ids of the statements the abstract execution reached
+        self.split_ops = {}          # repr(term) -> {(split|rsplit, constant separator)} applied to it
         self.piece_sep = {}          # repr(term) -> constant separator of a .split(sep) applied to it
         self.conv_uses = []          # (func, node, kind, argument AV, state) conversions that raise on malformed input
         self.none_uses = []          # (func, node, state) attribute/method use of a possibly-None match
@@ -1933,6 +1934,9 @@ class Interp:
 
     def match_method(self, m: MatchV, name, args, st, node, fi):
         info = self.matches[m.mid]
+        if name == "group" and len(args) > 1:
+            # m.group(1, 2, 3): the tuple of the groups
+            return TupleV([self.match_method(m, "group", [a], st, node, fi) for a in args])
         k = 0
         if args:
             if isinstance(args[0], ConstV) and isinstance(args[0].value, int):
@@ -2070,6 +2074,8 @@ class Interp:
                 st.add(Lin(maxsplit.value + 1) - ln)
             if name == "split" and sep_given and isinstance(args[0], ConstV) and isinstance(args[0].value, bytes):
                 self.piece_sep[repr(b.term)] = args[0].value
+            if name in ("split", "rsplit") and sep_given and isinstance(args[0], ConstV) and isinstance(args[0].value, bytes):
+                self.split_ops.setdefault(repr(b.term), set()).add((name, args[0].value))
             return self.alloc(st, "list", items=[], elem=el, length=ln, summary=True, split_of=b.term, split_len=L,
                               split_sep=args[0] if sep_given else None)
         if name == "join":
